@@ -107,7 +107,16 @@ def interp_refine(ctx, cfg, d, field, u0s, t0, hs):
             dc = sm._dev_cov(impl[j]["cov"], mod["cov"], sv)
             ctx.dev(f"interp.{name}.mean", dm, TOL, case=case, sig=f"{sigp}:{name}:mean", what=f"{name} mean deviates {dm:.2e} from the model of interpolate_fwd")
             ctx.dev(f"interp.{name}.cov", dc, 1e-8, case=case, sig=f"{sigp}:{name}:cov", what=f"{name} covariance deviates {dc:.2e} from the model of interpolate_fwd")
-            if cfg.strategy != "filter" and kp < 1e6:
+            at_floor = False
+            if cfg.solver.startswith("dynamic"):
+                # a dimension whose residual vanishes identically (polynomial solution) has its local scale on the positivity
+                # floor (machine epsilon, repository fix 4b386e0): process noise ~1e-32 next to the prior covariance; the
+                # backward gains of such a slice are not determined by the float data (thorough-tier false alarm)
+                osf = np.atleast_1d(np.asarray(st1.output_scale, dtype=np.float64))
+                at_floor = bool((osf[j] if cfg.fact == "bd" else osf[0]) <= 1e3 * 2.220446049250313e-16)
+                if at_floor:
+                    ctx.skip("interpolation: dynamic scale of this slice at the positivity floor: backward conditional not compared")
+            if cfg.strategy != "filter" and kp < 1e6 and not at_floor:
                 Am, bm, Qm = sm.den_float(mod["bw"])
                 # scale for the conditional's noise: variance of the state it maps *to*, written as
                 # (its own noise) + (gain * covariance of the later state * gain^T)
